@@ -147,6 +147,14 @@ def build_plans(world):
     return plans
 
 
+def drop_paths(d):
+    if isinstance(d, dict):
+        return {k: drop_paths(x) for k, x in d.items() if k not in ("path", "file")}
+    if isinstance(d, list):
+        return [drop_paths(x) for x in d]
+    return d
+
+
 def view(d):
     return canon(strip_volatile(d))
 
